@@ -19,3 +19,6 @@ def check(A):
         R.handle_connect_rules(A, fl, 'C05')
         R.disconnect_rules(A, fl, 'C05')
         R.response_rules(A, fl, 'C05', parts=('errors',))
+    # the close of a transport must reach the session: the tornado driver queues the close
+    # marker without waiting, into an unbounded queue
+    R.driver_queue_rule(A, 'C05')
